@@ -98,9 +98,63 @@ impl<'b, 'tx> Cursor<'b, 'tx> {
             self.next_called = true;
             if self.next().is_some() {
                 self.next_called = false;
+            } else {
+                // Nothing follows the emptied leaf. Stop just before where the key would be,
+                // like on an untouched tree: at the last entry that is still there.
+                {
+                    let mut b = self.bucket.borrow_mut();
+                    let (_, stack) = search(key.as_ref(), b.meta.root_page, &mut b);
+                    self.stack = stack;
+                }
+                if self.step_back() {
+                    self.next_called = false;
+                }
             }
         }
         exists
+    }
+
+    // Moves to the last entry of the nearest leaf to the left that still holds one.
+    // Returns false (cursor exhausted) if there is none.
+    fn step_back(&mut self) -> bool {
+        loop {
+            // leave every level that has nothing further to the left
+            loop {
+                match self.stack.last() {
+                    Some(e) if e.index > 0 => break,
+                    Some(_) if self.stack.len() > 1 => {
+                        self.stack.pop();
+                    }
+                    _ => {
+                        self.next_called = true;
+                        return false;
+                    }
+                }
+            }
+            self.stack.last_mut().unwrap().index -= 1;
+            // descend along the right-most path
+            let b = self.bucket.borrow();
+            loop {
+                let elem = self.stack.last().unwrap();
+                let page_node = b.page_node(elem.id);
+                if page_node.leaf() || page_node.len() == 0 {
+                    break;
+                }
+                let page_id = page_node.index_page(elem.index);
+                let child = b.page_node(PageNodeID::Page(page_id));
+                self.stack.push(SearchPath {
+                    index: child.len().saturating_sub(1),
+                    id: PageNodeID::Page(page_id),
+                });
+            }
+            let elem = self.stack.last().unwrap();
+            let page_node = b.page_node(elem.id);
+            if page_node.leaf() && page_node.len() > 0 {
+                return true;
+            }
+            // another leaf emptied by this transaction: keep going left
+            self.stack.last_mut().unwrap().index = 0;
+        }
     }
 
     /// Returns the data at the cursor's current position.
